@@ -12,6 +12,15 @@ from concurrent.futures import ThreadPoolExecutor
 import vlib
 
 PROPS = "Properties_C05"
+# leaf functions / constants of ring.c are re-translated from the C source on every run (tools/translate_leaf.py ->
+# coq/gen/Leaf.v, Constants.v) and re-proved equal to the model's (coq/Properties_leaf_ring.v)
+EXTRA_PROPS = ["Properties_leaf_ring"]
+
+
+def REGEN(ctx):
+    vlib.regen_leaf(ctx, ["Ring"])
+
+
 RULE = ("one case = one history (ring size + list of calls) or one capacity query; quick: seeded random histories on "
         "ring sizes {1,2,3,4,5,7,8,9,16,17,100,4096,70000,2^k+1}, request sizes 0..capacity+2 biased to exact "
         "fill/drain and to the wrap point, multi-part transactions incl. failing and abandoned ones, a few hostile "
